@@ -63,6 +63,11 @@ type world struct {
 	done    chan struct{}
 	mu      sync.Mutex
 	dl      [][]int
+	// gate: the publisher is held inside Notify of notifier gateN on key gateK (first such call while armed)
+	gateArmed    bool
+	gateN, gateK int
+	gateHit      chan struct{}
+	gateRel      chan struct{}
 }
 
 type notifier struct {
@@ -74,8 +79,21 @@ type notifier struct {
 func (n *notifier) Notify(key string, data interface{}) error {
 	m, _ := data.(int)
 	n.w.mu.Lock()
-	n.w.dl = append(n.w.dl, []int{n.id, keyIndex(key), m})
+	ki := keyIndex(key)
+	n.w.dl = append(n.w.dl, []int{n.id, ki, m})
+	hold := n.w.gateArmed && n.id == n.w.gateN && ki == n.w.gateK
+	if hold {
+		n.w.gateArmed = false
+	}
 	n.w.mu.Unlock()
+	if hold {
+		// the publisher blocks here, as in an rpc write to a dying connection or a full notifier channel
+		n.w.gateHit <- struct{}{}
+		select {
+		case <-n.w.gateRel:
+		case <-n.w.done:
+		}
+	}
 	return nil
 }
 
@@ -173,7 +191,10 @@ func apList(a *applied) [][]interface{} {
 
 // attempt executes the scenario once; matched tells whether every step took the wanted channel.
 func attempt(sc kit.Scenario, nKeys int) (evs []kit.Ev, matched bool, err error) {
-	w := &world{nots: map[int]*notifier{}, applied: make(chan applied), release: make(chan struct{}), done: make(chan struct{})}
+	w := &world{nots: map[int]*notifier{}, applied: make(chan applied), release: make(chan struct{}), done: make(chan struct{}),
+		gateHit: make(chan struct{}, 1), gateRel: make(chan struct{})}
+	held := false
+	var pubDone chan error
 	current.Store(w)
 	w.sp = subscribe.NewSubPub()
 	defer close(w.done)
@@ -272,7 +293,56 @@ func attempt(sc kit.Scenario, nKeys int) (evs []kit.Ev, matched bool, err error)
 				parked = false
 				ev["got"] = "idle"
 			}
+		case "pubstart":
+			// Publish runs on its own goroutine and is held inside Notify of (gn, gk)
+			p, gn, gk := kit.Int(op, "p"), kit.Int(op, "gn"), kit.Int(op, "gk")
+			if p < 0 || p >= nKeys || pubDone != nil {
+				return nil, false, fmt.Errorf("scenario %d: bad pubstart", sc.Scn)
+			}
+			msg++
+			ev["p"], ev["m"], ev["gn"], ev["gk"] = p, msg, gn, gk
+			w.mu.Lock()
+			w.gateArmed, w.gateN, w.gateK = true, gn, gk
+			w.mu.Unlock()
+			pubDone = make(chan error, 1)
+			go func(d chan error, m int) { d <- w.sp.Publish(nameSpace, kind, params[p], m) }(pubDone, msg)
+			select {
+			case <-w.gateHit:
+				held = true
+			case e := <-pubDone:
+				if e != nil {
+					return nil, false, e
+				}
+				pubDone <- nil // finished without reaching the gate
+			case <-time.After(10 * time.Second):
+				return nil, false, fmt.Errorf("scenario %d: Publish neither returned nor reached the gate", sc.Scn)
+			}
+			ev["held"] = held
+		case "pubend":
+			if pubDone == nil {
+				return nil, false, fmt.Errorf("scenario %d: pubend without pubstart", sc.Scn)
+			}
+			ev["m"] = msg
+			if held {
+				w.gateRel <- struct{}{}
+				held = false
+			}
+			select {
+			case e := <-pubDone:
+				if e != nil {
+					return nil, false, e
+				}
+			case <-time.After(10 * time.Second):
+				return nil, false, fmt.Errorf("scenario %d: Publish did not return", sc.Scn)
+			}
+			w.mu.Lock()
+			w.gateArmed = false
+			w.mu.Unlock()
+			pubDone = nil
 		case "pub":
+			if pubDone != nil {
+				return nil, false, fmt.Errorf("scenario %d: pub while a publication is held", sc.Scn)
+			}
 			p := kit.Int(op, "p")
 			if p < 0 || p >= nKeys {
 				return nil, false, fmt.Errorf("scenario %d: key %d out of range", sc.Scn, p)
